@@ -541,3 +541,30 @@ func Reaches(b, t *ssa.BasicBlock) bool {
 	}
 	return dfs(b)
 }
+
+// ReturnValues resolves the results of a return instruction. In functions
+// with defers go/ssa spills results into cells, runs the defers and reloads
+// them; the value returned (as seen by the body) is then the last store into
+// the cell in the returning block.
+func ReturnValues(ret *ssa.Return) []ssa.Value {
+	out := make([]ssa.Value, len(ret.Results))
+	for i, rv := range ret.Results {
+		out[i] = rv
+		u, ok := rv.(*ssa.UnOp)
+		if !ok || u.Op != token.MUL {
+			continue
+		}
+		a, ok := u.X.(*ssa.Alloc)
+		if !ok {
+			continue
+		}
+		b := ret.Block()
+		for j := len(b.Instrs) - 1; j >= 0; j-- {
+			if st, ok := b.Instrs[j].(*ssa.Store); ok && st.Addr == ssa.Value(a) {
+				out[i] = st.Val
+				break
+			}
+		}
+	}
+	return out
+}
